@@ -26,7 +26,7 @@ ASSUMPTIONS = ["process-crash semantics: every completed file-system call is dur
 ERRNOS = [errno.EIO, errno.ENOSPC, errno.EACCES, errno.EXDEV, errno.EROFS]
 OLD, NEW = {"a": 0}, {"a": 1}
 PAYLOAD = {"f": b"F" * 7, "sub/g": b"G" * 9}
-NSCN = 14
+NSCN = 15
 
 
 def _setup(scn, cache=False):
@@ -90,6 +90,11 @@ def _setup0(scn):
     elif scn == 14:   # clone onto a job that already exists in the destination project (refused; the existing job is a bystander of the failed call)
         s.add_job("/p", OLD, doc={"k": 1}, files=PAYLOAD)
         s.add_job("/q", OLD, doc={"dst": 1}, files={"d": b"D"})
+        job = s.pr["/p"].open_job(OLD)
+        op = lambda: s.pr["/q"].clone(job)
+    elif scn == 15:   # clone into a destination whose directory exists but is EMPTY (an init that died after mkdir): refused, directory stays reported by check()
+        s.add_job("/p", OLD, doc={"k": 1}, files=PAYLOAD)
+        fs.put_dir("/q/workspace/" + refs.canon_id(OLD))
         job = s.pr["/p"].open_job(OLD)
         op = lambda: s.pr["/q"].clone(job)
     else:             # remove / clear / reset
@@ -198,7 +203,7 @@ def _case(scn, mode, k, t, e, k2=None, rev=False, reg=0, cache=False):
                        and json.loads(files["signac_job_document.json"]) == {"k": 1}]
             if scn == 14:
                 pass
-            elif scn == 10:
+            elif scn in (10, 15):
                 # clone: the source must still hold everything; the copy may be partial only if the call did not return normally
                 if ("/p", old_id) not in holders:
                     problems.append(("clone damaged the source", holders))
@@ -316,7 +321,7 @@ def h_fault2(scn: int, k: int, d: int, e: int):
 def h_region(scn: int, reg: int, k: int, e: int, rev: bool):
     """fault SEQUENCE: from step k on (any k >= 0) every call on a path inside one directory region is denied (EACCES / EIO); queries answer False"""
     assert 0 <= scn <= NSCN and 0 <= reg <= 4 and 0 <= k and 0 <= e <= 1 and part_ok(scn)
-    assert not (scn in (10, 14) and reg in (2, 4))   # clone into a destination that stays inaccessible: the partial copy cannot be cleaned up by anybody (outside)
+    assert not (scn in (10, 14, 15) and reg in (2, 4))   # clone into a destination that stays inaccessible: the partial copy cannot be cleaned up by anybody (outside)
     fresh_path()
     scn, reg, e, rev = ci(scn, 0, NSCN), ci(reg, 0, 4), pick([errno.EACCES, errno.EIO], e), cb(rev)
     with nt():
@@ -334,9 +339,9 @@ def h_region__reach(scn: int, reg: int, k: int, e: int, rev: bool):
 
 
 HARNESSES = [
-    dict(name="h_fault", twin="h_fault__reach", timeout=(600, 1500), parts=(15, 15)),
-    dict(name="h_region", twin="h_region__reach", timeout=(600, 1500), parts=(15, 15)),
-    dict(name="h_fault2", timeout=(1500, 1500), parts=(15, 15), tiers=("thorough",)),
+    dict(name="h_fault", twin="h_fault__reach", timeout=(600, 1500), parts=(16, 16)),
+    dict(name="h_region", twin="h_region__reach", timeout=(600, 1500), parts=(16, 16)),
+    dict(name="h_fault2", timeout=(1500, 1500), parts=(16, 16), tiers=("thorough",)),
 ]
 
 
